@@ -685,7 +685,7 @@ func (it *Interp) hasIfaceMethod(o *Object, name string) bool {
 func (it *Interp) inheritPaths(out *Stream, st *Stage, ins []*Stream) {
 	for _, in := range ins {
 		for fid, p := range in.Paths {
-			np := &PathInfo{Cap: lin.Add(p.Cap, out.Cap), Stages: p.Stages + 1, Lead0: p.Lead0}
+			np := &PathInfo{Cap: lin.Add(p.Cap, out.Cap), Stages: p.Stages + 1, Lead0: p.Lead0, Idx: p.Idx}
 			if old, ok := out.Paths[fid]; ok {
 				// keep the roomier path (upper bound of the available slack)
 				if lin.ProveGE(it.G, lin.AddC(old.Cap, int64(old.Stages)), lin.AddC(np.Cap, int64(np.Stages))) {
